@@ -160,6 +160,8 @@ class W(convo.World):
         d = acc.keys or {"pre": []}
         d.update(identity=up["identity"], registration=up["registration"], type=b"\x05", skey=up["skey"])
         for kid, kv in ids.items():
+            if kid in d.setdefault("handed", set()):
+                continue
             d["pre"] = [x for x in d["pre"] if x[0] != kid]
             d["pre"].append((kid, kv))
         acc.keys = d
@@ -326,6 +328,8 @@ class W(convo.World):
                 d = acc.keys or {"pre": []}
                 d.update(identity=up["identity"], registration=up["registration"], type=b"\x05", skey=up["skey"])
                 for kid, kv in up["ids"].items():
+                    if kid in d.setdefault("handed", set()):
+                        continue
                     d["pre"] = [x for x in d["pre"] if x[0] != kid]
                     d["pre"].append((kid, kv))
                 acc.keys = d
